@@ -654,6 +654,51 @@ fn explore_c02_extra(ctx: &Ctx) -> (u64, u64, Vec<(String, String, Value)>, std:
             }
         }
     }
+    // (d) the store loses a directory while a newer version of a point is
+    // being fetched (so that moving the new point file into place fails):
+    // the run must fail, or serve everything - never succeed with less
+    for (i, (ca_name, module)) in [("ta0", "ta0.example/repo"), ("ca1", "ca1.example/repo"), ("tb0", "tb0.example/repo")].iter().enumerate() {
+        let cfg = Cfg::default();
+        evaluations += 1;
+        nontrivial += 1;
+        let replay = json!({"kind": "extra", "label": format!("store-directory-lost:{ca_name}")});
+        let r = (|| -> Result<Option<BTreeSet<Payload>>, String> {
+            let now = rpki::repository::x509::Time::now();
+            let v1 = Builder::at(&gen, cfg.stale, now).build(&rpkigen::base_tree());
+            let mut spec = rpkigen::base_tree();
+            for tal in &mut spec.tals { tal.ca.visit_mut(&mut |ca: &mut CaSpec| { ca.mft_number = 2; ca.mft_this_update += 600; }); }
+            let v2 = Builder::at(&gen, cfg.stale, now).build(&spec);
+            let case = Case::new(ctx.scratch.join(format!("lost-{i}")));
+            case.write_tals(&v1);
+            let mut config = case.config();
+            cfg.apply(&mut config);
+            case.publish(&v1);
+            util::catch(|| etree::run(&config, false, &LocalExceptions::empty())).map_err(|e| format!("harness: engine panicked in run 1: {e}"))?.map_err(|e| format!("harness: run 1: {e}"))?;
+            case.publish(&v2);
+            let stored = config.cache_dir.join("stored").join("rsync");
+            std::fs::write(case.dir.join("on-fetch"), format!("{module}\t{}\t{}.away", stored.display(), stored.display())).map_err(|e| format!("harness: {e}"))?;
+            let out = util::catch(|| etree::run(&config, false, &LocalExceptions::empty())).map_err(|e| format!("engine panicked in run 2: {e}"))?;
+            let used = !case.dir.join("on-fetch").exists();
+            let _ = std::fs::remove_dir_all(&case.dir);
+            if !used { return Err("harness: the side effect was never triggered".into()) }
+            Ok(out.ok().map(|o| payload_set(&o.data)))
+        })();
+        match r {
+            Err(e) if e.starts_with("harness") => { eprintln!("machinery error: {e}"); std::process::exit(2) }
+            Err(e) => viol.push(("tree:run-failed:store-directory-lost".into(), e, replay)),
+            Ok(None) => { *outcomes.entry("store-directory-lost:run-failed".into()).or_insert(0) += 1; }
+            Ok(Some(served)) => {
+                let base_all = payload_set(&run_case(&gen, ctx.scratch.join("lost-base"), &[], &cfg).expect("baseline").served);
+                let missing: Vec<String> = base_all.difference(&served).map(data::fmt_payload).collect();
+                *outcomes.entry(format!("store-directory-lost:{}", if missing.is_empty() { "run-ok-complete" } else { "VIOLATION" })).or_insert(0) += 1;
+                if !missing.is_empty() {
+                    viol.push(("tree:dropped-must:store-directory-lost".into(), format!(
+                        "the store's rsync directory vanished while {ca_name}'s module was being fetched; the run was reported successful although it serves less than the published data: missing {}", missing.join(", ")
+                    ), replay));
+                }
+            }
+        }
+    }
     // (b) fall-back to the stored point: every placement that voids a
     // fetched point, after a fault-free run
     let places = abandon_places(&rpkigen::base_tree());
@@ -745,7 +790,10 @@ fn report_for(ctx: &Ctx, which: usize) -> Report {
             whose first (https) URI yields nothing; and a rejected CA \
             holding one address family next to a healthy CA holding the \
             other family's space with the same leading bits, under \
-            unsafe-vrps reject and warn");
+            unsafe-vrps reject and warn; and a newer publication during \
+            whose fetch the store's directory vanishes (the new point \
+            file cannot be moved into place): the run fails or serves \
+            everything");
         rep.bound.push_str("; + 24 single-type runs + every point-voiding placement as a second run");
     }
     for (fp, msg, replay) in out.errors { rep.violation(fp, msg, replay); }
